@@ -251,9 +251,33 @@ def _build_obj(o):
     if k == "rational":
         return {"int": 3, "bool": True, "fraction": F(3, 2)}[o["spell"]]
     if k == "stream":
-        return Stream(1)
+        return Stream([3, 1])          # FINITE: a changed parcor_stable that unpacks / iterates its argument must end
     return {"float": 2.5, "complex": 1j, "none": None, "str": "ab", "list": [1, 0.5], "tuple": (1,),
             "dict": {0: 1}, "poly": Poly([1, 2])}[o["spell"]]
+
+
+class _Hang(BaseException):
+    pass
+
+
+def _watchdog(seconds, fn, *a):
+    """run fn(*a) under an alarm: a call that does not come back (e.g. a changed parcor_stable iterating an endless
+    Stream) is an observation {"when": "hang"}, not a hung check eating the machine's memory"""
+    import signal
+    def on_alarm(signum, frame):
+        raise _Hang()
+    try:
+        old = signal.signal(signal.SIGALRM, on_alarm)
+    except ValueError:                      # not the main thread: no watchdog
+        return fn(*a)
+    signal.setitimer(signal.ITIMER_REAL, seconds)
+    try:
+        return fn(*a)
+    except _Hang:
+        return {"when": "hang"}
+    finally:
+        signal.setitimer(signal.ITIMER_REAL, 0)
+        signal.signal(signal.SIGALRM, old)
 
 
 def _apply_parcor(args, kwargs):
@@ -413,11 +437,11 @@ def impl(c):
             kwargs = dict((p["name"], _build_obj(p["obj"])) for p in c["kwargs"])
         except Exception as ex:
             return {"construct_err": err_kind(ex)}
-        o = {"parcor": _apply_parcor(args, kwargs)}
+        o = {"parcor": _watchdog(5, _apply_parcor, args, kwargs)}
         # fresh objects for the second call (a Stream argument is consumed by the first)
         args = [_build_obj(o_) for o_ in c["args"]]
         kwargs = dict((p["name"], _build_obj(p["obj"])) for p in c["kwargs"])
-        o["stable"] = _apply_stable(args, kwargs)
+        o["stable"] = _watchdog(5, _apply_stable, args, kwargs)
         return o
     if e == "call":
         num, den = _spell(decl(c["num"]), c.get("spell")), _spell(decl(c["den"]), c.get("spell"))
